@@ -277,25 +277,55 @@ class Warmup:
 # ------------------------------------------------------------------------------------------------
 # torch float64 surrogates on the library's graph (reference gradients)
 # ------------------------------------------------------------------------------------------------
+import torch as _torch  # noqa: E402
+
+_DT = [_torch.float64]  # dtype of the torch surrogates: float64 (reference) or float32 (conditioning yardstick)
+
+
+def _dt():
+    import torch
+
+    if _DT[0] is None:
+        _DT[0] = torch.float64
+    return _DT[0]
+
+
+class as_float32:
+    """Evaluate the same surrogate formulas in float32: the distance between the float32 and float64
+    gradients of the reference measures how ill-conditioned a step is (weights blown up by a large
+    learning rate), i.e. how far a correct float32 implementation may legitimately be from float64."""
+
+    def __enter__(self):
+        import torch
+
+        _dt()
+        self.old = _DT[0]
+        _DT[0] = torch.float32
+
+    def __exit__(self, *a):
+        _DT[0] = self.old
+
+
 def t_const(xs, like=None):
     import torch
 
-    return torch.tensor(xs, dtype=torch.float64)
+    _dt()
+    return torch.tensor(xs, dtype=_DT[0])
 
 
 def t_pg(adv, ll_t):
     """-mean(adv * ll) with adv constant (list aligned with ll_t.flatten())."""
-    return -(t_const(adv) * ll_t.double().reshape(-1)).mean()
+    return -(t_const(adv) * ll_t.to(_DT[0]).reshape(-1)).mean()
 
 
 def t_mse(v_t, reward):
-    return ((v_t.double().reshape(-1) - t_const(reward)) ** 2).mean()
+    return ((v_t.to(_DT[0]).reshape(-1) - t_const(reward)) ** 2).mean()
 
 
 def t_huber(v_t, reward, delta: float = 1.0):
     import torch
 
-    d = (v_t.double().reshape(-1) - t_const(reward)).abs()
+    d = (v_t.to(_DT[0]).reshape(-1) - t_const(reward)).abs()
     return torch.where(d <= delta, 0.5 * d * d, delta * (d - 0.5 * delta)).mean()
 
 
@@ -303,10 +333,11 @@ def t_ppo(ll_t, ll_old, adv, v_t, reward, ent_t, clip, vf_lambda, entropy_lambda
     """adv: constants (already standardised if requested)."""
     import torch
 
-    ratio = torch.exp(ll_t.double().sum(-1).reshape(-1) - t_const(ll_old))
+    _dt()
+    ratio = torch.exp(ll_t.to(_DT[0]).sum(-1).reshape(-1) - t_const(ll_old))
     a = t_const(adv)
     surr = -torch.minimum(ratio * a, ratio.clamp(1.0 - clip, 1.0 + clip) * a).mean()
     out = surr + vf_lambda * t_huber(v_t, reward)
     if entropy_lambda:
-        out = out - entropy_lambda * ent_t.double().mean()
+        out = out - entropy_lambda * ent_t.to(_DT[0]).mean()
     return out
